@@ -205,7 +205,7 @@ func init() {
 	noop := func(e *Engine, st *State, c *callCtx) bool { c.ret(st, nil); return true }
 	for _, n := range []string{"(*sync.Mutex).Lock", "(*sync.Mutex).Unlock", "(*sync.RWMutex).Lock", "(*sync.RWMutex).Unlock",
 		"(*sync.RWMutex).RLock", "(*sync.RWMutex).RUnlock", "(*sync.WaitGroup).Add", "(*sync.WaitGroup).Done", "(*sync.WaitGroup).Wait",
-		"(*sync.Pool).Put", "runtime.Gosched", "runtime.KeepAlive", "runtime.SetFinalizer"} {
+		"(*sync.Pool).Put", "runtime.Gosched", "time.Sleep", "runtime.KeepAlive", "runtime.SetFinalizer"} {
 		reg(n, noop)
 	}
 	reg("(*sync.Mutex).TryLock", func(e *Engine, st *State, c *callCtx) bool { c.ret(st, tTrue); return true })
